@@ -7,6 +7,8 @@ import CalicoVerif.Model.C41
   `complete`  → `set=<sorted distinct members>` or `noop`
   `needs <present> <nqos> <ctl>` → 0|1
   `rule <ipv> <offload 0|1> <nft 0|1>` → `idx=0 n=1 <rendered rule>` or `none`
+  `ftnew <overlay devs of target 0, csv|-> …` | `ftif <name> <up 0|1>` | `ftcomplete` → `ov=<t0 csv|->;… ext=<csv|->` or `noop`
+  (flowtableManager with external device pattern `^eth`)
 -/
 open CalicoVerif CalicoVerif.C41 CalicoVerif.Proto
 
@@ -27,7 +29,7 @@ def showSet (ms : List String) : String :=
   let s := dedupSorted (ms.mergeSort (fun a b => a ≤ b))
   if s.isEmpty then "set=-" else "set=" ++ joinWith "," s
 
-def step (m : Mgr) (line : String) : Mgr × String :=
+def stepM (m : Mgr) (line : String) : Mgr × String :=
   match words line with
   | ["new", v] => match v.toNat? with
     | some v => (Mgr.new v, "ok")
@@ -62,4 +64,27 @@ def step (m : Mgr) (line : String) : Mgr × String :=
     | _, _, _ => (m, "bad-op")
   | _ => (m, "bad-op")
 
-def main : IO Unit := run step (Mgr.new 4)
+structure St where
+  m : Mgr
+  ft : FtMgr
+
+def ethPattern (n : String) : Bool := n.startsWith "eth"
+
+def showCsv (l : List String) : String := if l.isEmpty then "-" else joinWith "," l
+
+def step (s : St) (line : String) : St × String :=
+  match words line with
+  | "ftnew" :: ts => ({ s with ft := FtMgr.new (ts.map csv) }, "ok")
+  | ["ftif", n, u] => match u.toNat? with
+    | some u => ({ s with ft := s.ft.onIface ethPattern n (u != 0) }, "ok")
+    | none => (s, "bad-op")
+  | ["ftcomplete"] =>
+    if s.ft.dirty then
+      let ft := s.ft.complete
+      ({ s with ft := ft }, match ft.last with
+        | some (ov, ext) => s!"ov={joinWith ";" (ov.map showCsv)} ext={showCsv ext}"
+        | none => "?")
+    else (s, "noop")
+  | _ => let (m', o) := stepM s.m line; ({ s with m := m' }, o)
+
+def main : IO Unit := run step { m := Mgr.new 4, ft := FtMgr.new [] }
